@@ -25,9 +25,14 @@ def valOfJson (j : Json) : Except String Val := do
     match a.toList.mapM (fun x => x.getStr?.toOption.map String.toList) with
     | some l => pure (.strs l)
     | none => pure (.other j.compress)
+  | .obj _ =>
+    match j.getObjVal? "VerifyMode" with
+    | .ok n => pure (.verifyMode n.compress)
+    | .error _ => pure (.other j.compress)
   | _ => pure (.other j.compress)
 
 def jsonOfVal : Val → Json
+  | .verifyMode r => Json.mkObj [("VerifyMode", match Json.parse r with | .ok j => j | .error _ => Json.str r)]
   | .str s => Json.str (String.ofList s)
   | .strs l => Json.arr (l.map (fun s => Json.str (String.ofList s))).toArray
   | .other r => match Json.parse r with | .ok j => j | .error _ => Json.str r
